@@ -78,7 +78,7 @@ impl Property for C07 {
         ]
     }
     fn workloads(&self, tier: Tier) -> Vec<(String, u64)> {
-        vec![("wincons-batch".into(), tier.pick(100, 10_000)), ("single-window-default".into(), tier.pick(200, 5000))]
+        vec![("wincons-batch".into(), tier.pick(400, 10_000)), ("single-window-default".into(), tier.pick(800, 5000))]
     }
     fn required(&self, _tier: Tier) -> Vec<(String, u64)> {
         vec![("resolved".into(), 1000), ("glass_missing".into(), 100), ("frame_missing".into(), 100), ("shading_given".into(), 100), ("k_default_5_7".into(), 50)]
